@@ -13,7 +13,7 @@ trap cleanup EXIT
 cd "$WT"
 git apply "$SRC/patch.diff" || { echo "$PROP/$NAME: PATCH-DOES-NOT-APPLY"; exit 3; }
 FILES=$(git diff --name-only | tr '\n' ' ')
-case "$FILES" in *tests/*) echo "$PROP/$NAME: touches tests"; exit 4;; esac
+case " $FILES" in *" tests/"*) echo "$PROP/$NAME: touches tests"; exit 4;; esac
 SUITE=$(PYTHONPATH=$WT/src /venv/bin/python -m pytest -q -p no:cacheprovider -n 8 --timeout=900 2>&1 | tail -1)
 echo "$SUITE" | grep -q "1078 passed" || { echo "$PROP/$NAME: SUITE-FAILS: $SUITE"; exit 5; }
 PYTHONPATH=$WT/src /venv/bin/python "$SRC/demo.py" >/dev/null 2>&1; RC_WITH=$?
